@@ -222,7 +222,7 @@ def expected_intf(d):
 
 
 def gen_intf(rng, tier, escalate):
-    n = 1500 * (4 if (tier == "thorough" or escalate) else 1)
+    n = 2000 * (4 if (tier == "thorough" or escalate) else 1)
     cases = []
     for _ in range(n):
         d = gen_intf_desc(rng)
